@@ -84,3 +84,90 @@ func shapeCases() []readCase {
 	)
 	return out
 }
+
+// Statements that end in a comment (round D): three statements; the one at position pos ends in
+// one of the five tails below.  file = what follows the statement's last token in the file,
+// want = what follows it in the statement text every reader must return (the scanner keeps the
+// default delimiter and everything before it; a comment after the ';' belongs to what follows).
+var tailShapes = []struct{ n, file, want string }{
+	{"line-comment-newline-semicolon", " -- seed row\n;", " -- seed row\n;"},
+	{"block-comment-newline-semicolon", " /* seed row */\n;", " /* seed row */\n;"},
+	{"delimiter-inside-line-comment", " -- c;\n;", " -- c;\n;"},
+	{"blank-lines-semicolon", "\n\n;", "\n\n;"},
+	{"comment-after-semicolon", ";  -- trailing", ";"},
+}
+
+var tailBases = []string{"CREATE TABLE t1 (a int)", "INSERT INTO t1 VALUES (1)", "CREATE INDEX i1 ON t1 (a)"}
+
+// tailReaders: the five source formats of atlas migrate import
+func tailReaders() []format {
+	return []format{formats[2], formats[5], formats[3], formats[1], formats[4]}
+}
+
+// tailFile: the up file of format fm with tail shape sh at position pos, and the required statements.
+func tailFile(fm format, sh, pos int) (string, []string) {
+	var sb strings.Builder
+	switch fm.name {
+	case "goose":
+		sb.WriteString("-- +goose Up\n")
+	case "dbmate":
+		sb.WriteString("-- migrate:up\n")
+	case "liquibase":
+		sb.WriteString("--liquibase formatted sql\n--changeset me:1\n")
+	}
+	var want []string
+	for i, b := range tailBases {
+		if i == pos {
+			sb.WriteString(b + tailShapes[sh].file + "\n")
+			want = append(want, b+tailShapes[sh].want)
+		} else {
+			sb.WriteString(b + ";\n")
+			want = append(want, b+";")
+		}
+	}
+	switch fm.name {
+	case "goose":
+		sb.WriteString("\n-- +goose Down\nDROP TABLE t1;\n")
+	case "dbmate":
+		sb.WriteString("\n-- migrate:down\nDROP TABLE t1;\n")
+	}
+	return sb.String(), want
+}
+
+// tailHazard: input class of a known defect of the source reader met by this file ("" = none).
+// GooseFile.StmtDecls decides line by line: a line that ends in ';' ends the statement even when
+// the ';' is inside a line comment (goose-line-split), and a ';' followed by a comment does not
+// (goose-comment-after-semicolon); pressly/goose ignores a trailing "--" comment in both cases.
+func tailHazard(fm format, sh int) string {
+	if fm.name != "goose" {
+		return ""
+	}
+	switch tailShapes[sh].n {
+	case "delimiter-inside-line-comment":
+		return "goose-line-split"
+	case "comment-after-semicolon":
+		return "goose-comment-after-semicolon"
+	}
+	return ""
+}
+
+func tailDesc(fm format, sh, pos int) string {
+	return fmt.Sprintf("tail reader=%s statement-end=%s pos=%d", fm.name, tailShapes[sh].n, pos)
+}
+
+func tailCases() []readCase {
+	var out []readCase
+	for _, fm := range tailReaders() {
+		for sh := range tailShapes {
+			for pos := 0; pos < 3; pos++ {
+				c, want := tailFile(fm, sh, pos)
+				d := tailDesc(fm, sh, pos)
+				if h := tailHazard(fm, sh); h != "" {
+					d += " hazard=" + h
+				}
+				out = append(out, readCase{fm, c, want, d})
+			}
+		}
+	}
+	return out
+}
